@@ -117,7 +117,7 @@ def build(rng, *, cluster_bits: int, size: int, views: list[View], version: int 
           snapshots_meta: list[dict] | None = None, copied_random: bool = True, level: int = 6,
           tuned_frac: float = 0.3, compat: int = 0, autoclear: int = 0, incompat_extra: int = 0,
           refcount_order: int = 4, crypt_method: int = 0, compression_type: int = 0, pack_compressed: bool = True,
-          rand_info: bool = True):
+          rand_info: bool = True, ext_end_marker: bool = True):
     """-> (SparseFile image, SparseFile|None data_file, meta). views[0] is the active image, the rest snapshots."""
     cs = 1 << cluster_bits
     spc = cs // SECTOR
@@ -276,11 +276,15 @@ def build(rng, *, cluster_bits: int, size: int, views: list[View], version: int 
     ext = b"".join(extensions or [])
     if external_data and data_file_name is not None:
         ext += extension(EXT_DATA_FILE, data_file_name)
-    ext += struct.pack(">II", 0, 0)
     hl = 72 if version == 2 else header_length
     backing_off = 0
-    if backing_name:
-        backing_off = hl + len(ext) + rng.choice([0, 0, 8, 16])
+    if ext_end_marker or not backing_name or not ext:
+        ext += struct.pack(">II", 0, 0)
+        if backing_name:
+            backing_off = hl + len(ext) + rng.choice([0, 0, 8, 16])
+    else:
+        # no end-of-extensions marker: the extension area ends where the backing file name begins, directly behind the last extension
+        backing_off = hl + len(ext)
     hdr = struct.pack(">IIQIIQIIQQIIQ", MAGIC, version, backing_off, len(backing_name or b""), cluster_bits, size, crypt_method,
                       l1_info[0][1], l1_info[0][0], lay[("refcount",)], 1, len(views) - 1, snaps_off)
     if version >= 3 and rand_info and not compat and not autoclear and rng.random() < 0.5:
